@@ -33,11 +33,13 @@ CLAIMS = {
 GOALS = {'quick': ['deleted with an update in flight', 'deleted while idle',
                    'end called twice', 'engine dropped without end',
                    'parallel step', 'daughters parallel',
-                   'worker->parent pipe of capacity 0'],
+                   'worker->parent pipe of capacity 0',
+                   'parallel process without ports'],
          'thorough': ['deleted with an update in flight', 'deleted while idle',
                       'end called twice', 'engine dropped without end',
                       'parallel step', 'daughters parallel',
-                      'worker->parent pipe of capacity 0']}
+                      'worker->parent pipe of capacity 0',
+                      'parallel process without ports']}
 STUBS = ['vivarium.core.process.multiprocessing rebound to vsym.mpstub (threads '
          'with strict hand-off, queues as pipes, hang detection)',
          'pure stub processes with deltas indexed by (name, call)']
@@ -119,6 +121,21 @@ class SelfPaced(Process):
         return {'s': {'x': CTX['deltas'][key]}}
 
 
+class Heartbeat(Process):
+    """declares no ports at all (its schema is the empty dictionary); long
+    timestep, so that it has an update in flight when structure changes"""
+
+    def ports_schema(self):
+        return {}
+
+    def calculate_timestep(self, states):
+        return 3
+
+    def next_update(self, timestep, states):
+        CTX['beats'] = CTX.get('beats', 0) + 1
+        return {}
+
+
 class Copy(Step):
     def ports_schema(self):
         return {'s': {'x': {'_default': 0},
@@ -190,6 +207,14 @@ def jobs(tier):
                     op=op, stop=stop, pd=pd, B=3 if q else 4,
                     budget_s=100 if q else 900, validate=1,
                     crosscheck=0 if q else 10))
+    # a parallel process without any port, busy while structure changes
+    for op in (('delete', 'generate') if q else ('delete', 'divide', 'move',
+                                                 'generate')):
+        out.append(dict(name='heartbeat-%s' % op, op=op,
+                        stop='end_after_update',
+                        pd=(False if op in ('divide', 'generate') else None),
+                        B=3, heartbeat=True, budget_s=100 if q else 900,
+                        validate=1))
     # the same under a worker->parent pipe of capacity 0 (large results: the
     # worker's send blocks until the parent receives)
     for op in (('none', 'delete', 'divide') if q else OPS):
@@ -212,16 +237,21 @@ def run_once(ctx, cfg, flags, ivs, tag):
     step = Copy({'_parallel': flags['st']})
     killer = Killer({'op': cfg['op'],
                      'daughters_parallel': flags['daughters']})
+    extra_p, extra_t = {}, {}
+    if cfg.get('heartbeat'):
+        extra_p['hb'] = Heartbeat({'_parallel': flags['q']})
+        extra_t['hb'] = {}
     out = dict(rows=None, final=None, paths=None, error=None, workers=None)
     e = None
     try:
         e = Engine(
-            processes={'k': killer, 'agents': {'a': {'grow': grow}},
-                       'q': other},
+            processes=dict({'k': killer, 'agents': {'a': {'grow': grow}},
+                            'q': other}, **extra_p),
             steps={'st': step}, flow={'st': []},
-            topology={'k': {'agents': ('agents',), 'away': ('away',)},
-                      'agents': {'a': {'grow': {'s': ('s',)}}},
-                      'q': {'s': ('qs',)}, 'st': {'s': ('qs',)}},
+            topology=dict({'k': {'agents': ('agents',), 'away': ('away',)},
+                           'agents': {'a': {'grow': {'s': ('s',)}}},
+                           'q': {'s': ('qs',)}, 'st': {'s': ('qs',)}},
+                          **extra_t),
             emitter={'type': 'vsym_rec', 'tag': tag}, display_info=False,
             profile=bool(cfg.get('profile')))
         stop = cfg['stop']
@@ -335,6 +365,8 @@ def body(ctx, cfg):
         ctx.goal('end called twice')
     if cfg['stop'] == 'dropped':
         ctx.goal('engine dropped without end')
+    if cfg.get('heartbeat') and flags['q']:
+        ctx.goal('parallel process without ports')
     # in flight / idle witnesses: the killer's update is applied at tsk
     if cfg['op'] == 'delete' and flags['a'] and ctx.symbolic:
         tsa, tsk = CTX['ts']['a'], CTX['ts']['k']
